@@ -469,6 +469,9 @@ class Prover:
         fd, path = tempfile.mkstemp(suffix=".smt2", prefix="pyvc_")
         os.write(fd, smt.encode())
         os.close(fd)
+        if os.environ.get("PYVC_KEEP_SMT"):     # debugging aid: keep a copy of every query sent to the CLI back ends
+            import shutil
+            shutil.copy(path, os.path.join(os.environ["PYVC_KEEP_SMT"], os.path.basename(path)))
         tsec = max(2, self.timeout_ms // 1000)
         csec = max(3 * tsec, 60)   # cvc5 decides the sequence/quantifier obligations z3 leaves open; give it room
         # (the slowest such obligation takes ~25 s on an idle machine: the floor keeps its verdict stable under load)
